@@ -1,5 +1,6 @@
 #!/usr/bin/env python3
-"""run_seeded.py <seeded dir> [--checks C01,C05,...]
+"""run_seeded.py <seeded dir> [--checks C01,C05,...]   (a directory without demo.py is a behaviour-preserving refactoring:
+only the test suite is run in the scratch worktree, and every check is expected to stay quiet)
 Confirms a seeded change (patch.diff + demo.py) in a scratch worktree (tests pass, demo fails with it and passes without it),
 then applies it to /repo, runs the checks, undoes it, and prints which checks raised a VIOLATION."""
 import json, os, subprocess, sys, tempfile, shutil, time
@@ -25,7 +26,8 @@ def main():
     rc, out = sh('git -C /repo worktree add -q --detach %s HEAD' % wt)
     try:
         env = dict(os.environ, PYTHONPATH=wt, PYTHONHASHSEED='0', PYTHONDONTWRITEBYTECODE='1')
-        rc0, o0 = sh('timeout 60 /venv/bin/python %s %s' % (demo, wt), cwd=wt, env=env)
+        has_demo = os.path.exists(demo)
+        rc0, o0 = sh('timeout 60 /venv/bin/python %s %s' % (demo, wt), cwd=wt, env=env) if has_demo else (0, '')
         rc, out = sh('git apply %s' % patch, cwd=wt)
         res['applies'] = rc == 0
         if rc != 0:
@@ -34,7 +36,7 @@ def main():
         rct, ot = sh('/venv/bin/python -m pytest -q -p no:cacheprovider 2>&1 | tail -1', cwd=wt, env=env)
         res['tests'] = ot.strip()
         res['tests_pass'] = '82 passed' in ot
-        rc1, o1 = sh('timeout 60 /venv/bin/python %s %s' % (demo, wt), cwd=wt, env=env)
+        rc1, o1 = sh('timeout 60 /venv/bin/python %s %s' % (demo, wt), cwd=wt, env=env) if has_demo else (1, 'no demo: refactoring')
         res['demo_without'] = rc0
         res['demo_with'] = rc1
         res['demo_output'] = o1.strip()[-300:]
